@@ -100,3 +100,50 @@ package hedgepolicy
 //@   let x := asref(result, *executor)
 //@   ensures [C01.toexecutor.fresh_self_referential+C09.toexecutor] typeis(result, *executor) && fresh(x) && x.hedgePolicy == h && x.BaseExecutor != nil && fresh(x.BaseExecutor) && typeis(x.Executor, *executor) && asref(x.Executor, *executor) == x
 //@   modifies nothing
+
+// Builder wrappers: each delegates exactly once to the shared registration function of the same name on its own base policy
+// and returns the builder itself.
+//@ func (*config).CancelOnErrors
+//@   builder
+//@   requires c != nil && c.BaseAbortablePolicy != nil
+//@   oldlet nd := 0
+//@   oldlet dr := nil
+//@   oldlet dn := -1
+//@   oncall (*BaseAbortablePolicy).AbortOnErrors: nd := nd + 1; dr := callarg_0; dn := len(callarg_1)
+//@   ensures [C12.hedge.cancelonerrors_delegates+C09.builder.cancelonerrors] nd == 1 && dr == c.BaseAbortablePolicy && result_0 == asiface(c) && dn == len(errs)
+//@   havoc
+//@   modifies *
+//@ func (*config).CancelOnErrorTypes
+//@   builder
+//@   requires c != nil && c.BaseAbortablePolicy != nil
+//@   oldlet nd := 0
+//@   oldlet dr := nil
+//@   oldlet dn := -1
+//@   oncall (*BaseAbortablePolicy).AbortOnErrorTypes: nd := nd + 1; dr := callarg_0; dn := len(callarg_1)
+//@   ensures [C12.hedge.cancelonerrortypes_delegates+C09.builder.cancelonerrortypes] nd == 1 && dr == c.BaseAbortablePolicy && result_0 == asiface(c) && dn == len(errs)
+//@   havoc
+//@   modifies *
+//@ func (*config).CancelOnResult
+//@   builder
+//@   requires c != nil && c.BaseAbortablePolicy != nil
+//@   oldlet nd := 0
+//@   oldlet dr := nil
+//@   oncall (*BaseAbortablePolicy).AbortOnResult: nd := nd + 1; dr := callarg_0
+//@   ensures [C12.hedge.cancelonresult_delegates+C09.builder.cancelonresult] nd == 1 && dr == c.BaseAbortablePolicy && result_0 == asiface(c)
+//@   havoc
+//@   modifies *
+//@ func (*config).CancelIf
+//@   builder
+//@   requires c != nil && c.BaseAbortablePolicy != nil
+//@   oldlet nd := 0
+//@   oldlet dr := nil
+//@   oldlet da := nil
+//@   oncall (*BaseAbortablePolicy).AbortIf: nd := nd + 1; dr := callarg_0; da := callarg_1
+//@   ensures [C12.hedge.cancelif_delegates+C09.builder.cancelif] nd == 1 && dr == c.BaseAbortablePolicy && result_0 == asiface(c) && da == predicate
+//@   havoc
+//@   modifies *
+//@ func (*config).OnHedge
+//@   builder
+//@   requires c != nil
+//@   ensures [C16.hedge.listener_registered] c.onHedge == listener && c.maxHedges == old(c.maxHedges) && result == asiface(c)
+//@   modifies c.onHedge
